@@ -123,6 +123,10 @@ func (m *Machine) fallback(extra []*Term, wantModel bool) (Verdict, map[string]u
 // checkSat decides pc ∧ extra, falling back to the one-shot portfolio on
 // unknown.
 func (m *Machine) checkSat(extra *Term) Verdict {
+	key, cv, hit := m.cacheLookup(extra)
+	if hit {
+		return cv
+	}
 	v := m.solver.Check(extra)
 	if v == Sat {
 		m.solver.ModelDone()
@@ -130,6 +134,7 @@ func (m *Machine) checkSat(extra *Term) Verdict {
 	if v == Unknown {
 		v, _ = m.fallback([]*Term{extra}, false)
 	}
+	m.cacheStore(key, v)
 	return v
 }
 
@@ -140,10 +145,18 @@ func (m *Machine) checkRefresh(extra *Term, refresh bool) Verdict {
 	if !refresh {
 		return m.checkSat(extra)
 	}
+	key, cv, hit := m.cacheLookup(extra)
+	if hit {
+		if cv == Sat {
+			m.model = nil // feasible, but no model at hand
+		}
+		return cv
+	}
 	v, model := m.checkSatModel(extra)
 	if v == Sat {
 		m.model = model
 	}
+	m.cacheStore(key, v)
 	return v
 }
 
